@@ -453,11 +453,16 @@ class Facts:
         self.adts = {}
         self.impls = []
         self.fns = {}
+        self.moved = {}       # actual path -> canonical path of items that live in another module than on the pinned tree
         for fn in sorted(os.listdir(directory)):
             if not fn.endswith('.%s.json' % cfg):
                 continue
             with open(os.path.join(directory, fn)) as f:
-                d = json.load(f)
+                text = f.read()
+            d = json.loads(text)
+            text2 = self._canonicalise(text, d)
+            if text2 is not text:
+                d = json.loads(text2)
             cr = d['crate']
             self.crates[cr] = d
             for bd in d['bodies']:
@@ -473,6 +478,40 @@ class Facts:
                 f_['crate'] = cr
                 self.fns[strip_generics(f_['def'])] = f_
         self._children = None
+
+    _CANON = None
+
+    def _canonicalise(self, text, d):
+        """Module moves are behaviour-neutral: an item (type, free function, constant) that now lives in another private
+        module of its crate is given back the path it has on the pinned tree (rules/canon_paths.json), everywhere in the
+        fact file, so that rules keyed on paths keep finding it.  Renamed items are NOT mapped."""
+        if Facts._CANON is None:
+            p = os.path.join(os.path.dirname(os.path.abspath(__file__)), 'canon_paths.json')
+            Facts._CANON = json.load(open(p)) if os.path.exists(p) else {}
+        cr = d['crate']
+        canon = Facts._CANON.get(cr)
+        if not canon:
+            return text
+        here = {}
+        for a in d['adts']:
+            here.setdefault(a['def'].rsplit('::', 1)[-1], set()).add(a['def'])
+        for b in d['bodies']:
+            if b['kind'] in ('fn', 'static', 'const') and not b['parent'] and not b['impl'] and not b['promoted']:
+                p = re.sub(r'::<.*$', '', b['def'])
+                here.setdefault(p.rsplit('::', 1)[-1], set()).add(p)
+        repl = {}
+        for name, paths in here.items():
+            want = canon.get(name)
+            if want and len(paths) == 1:
+                have = next(iter(paths))
+                if have != want and have.startswith(cr + '::') and want not in paths:
+                    repl[have] = want
+        if not repl:
+            return text
+        self.moved.update(repl)
+        for have in sorted(repl, key=len, reverse=True):
+            text = re.sub(re.escape(have) + r'(?![A-Za-z0-9_])', repl[have], text)
+        return text
 
     def body(self, name):
         """unique body by stripped name"""
